@@ -515,6 +515,13 @@ Section Model.
     | o :: ops' => let '(p', r) := p_step p o in r :: p_run p' ops'
     end.
 
+  (** the pool after a history *)
+  Fixpoint p_final (p : pool) (ops : list hop) : pool :=
+    match ops with
+    | [] => p
+    | o :: ops' => p_final (fst (p_step p o)) ops'
+    end.
+
   Definition p_init (i : impl) (sizes : list nat) : pool := map (fun s => Some (h_new i s)) sizes.
 
   (** the outputs of a history on a pool of [length sizes] heaps of implementation [i]
